@@ -99,6 +99,11 @@ CHECKS["C15"] = dict(
     text="Exhaustive over all caption lists of <= 4 captions over two start keys x {short, long} for the scan's design model, and over every combination of 1-3 rows with lengths from {5, 31, 32, 33, 40} in every order for pop-on buffers (non-adjacent rows = captions sharing a start, adjacent rows = lines of one caption, one or two buffers), roll-up and paint-on streams; random streams with rows of 0-40 characters in the three modes beyond.",
     design="4 C15")
 
+CHECKS["C16"] = dict(
+    technique="TLA+ spec SccText.tla (SentRows, VerdictRoll) and the design model MC_Roll of SCCReader's roll-up / paint-on branch: TLC checks conservation, no empty caption and continuity on all event sequences, and judges the captions SCCReader returns for generated roll-up / paint-on streams against the rows computed from the abstract program (Trace_SccText)",
+    text="Exhaustive over all event sequences of <= 8 (quick) / 10 (thorough) events over {roll-up command, paint-on command, carriage return, row text} for the design model, and over a replay grid depth 2-4 x base row x 1-4 rows x single/doubled x drop/non-drop x repeated mode command, paint-on on adjacent and non-adjacent rows; random streams of 1-8 rows with specials, extended characters, backspaces, mid-row codes and mode switches beyond.",
+    design="4 C16")
+
 NOT_YET = {}
 
 
